@@ -147,6 +147,8 @@ def one_unary(acc, spec, scheme='s'):
 def check_total(acc, spec, mask, scheme='s'):
     if spec[1] == 2 and mask % 3 == 1:
         scheme = 'f'        # states q9, q10: a fresh-name generator must not hand out an existing name
+    if spec[1] == 2 and mask % 3 == 2:
+        scheme = 'H'        # states trap2, q2: numbered names with a gap below them
     """Partial DFAs: the transitions selected by `mask` are removed from a total delta."""
     m = lib()
     from gambatools.dfa import DFA
@@ -325,7 +327,7 @@ def plan(tier, seed):
     unary(2, 2, 1, 'q')
     unary(3, 1, 1, 'q')
     unary(2, 1, 1, 'x')
-    for sch in ('t', 'd', 'f', 'u', 'g', 'K', 'b', 'n'):
+    for sch in ('t', 'd', 'f', 'u', 'g', 'K', 'b', 'n', 'H'):
         unary(2, 2, 1, sch)
         unary(3, 1, 1, sch)
     # wave 6: operand names as the library's own constructions produce them ({q0,q1}, (s0,r0)), on either side
